@@ -110,6 +110,14 @@ def sum_con(rng, n, vars_, kmax=5):
 
 
 def gen_spec(stratum, rng):
+    spec = _gen_spec(stratum, rng)
+    # how each variable collection is handed to the constructors (list / tuple / one-shot generator / a list the
+    # caller keeps appending to afterwards)
+    spec["containers"] = [rng.choice(["list", "list", "list", "tuple", "gen", "mutate"]) for _ in spec["cons"]]
+    return spec
+
+
+def _gen_spec(stratum, rng):
     if stratum == "supported":
         vars_ = _vars(rng, 1, 4, 5)
         n = len(vars_)
@@ -158,7 +166,10 @@ def gen_spec(stratum, rng):
             du = [rng.randint(0, 3) for _ in range(n)]
             de = [rng.randint(0, 3) for _ in range(n)]
             cap = rng.randint(1, 5)
-            cons = [("cumulative", list(range(n)), du, de, cap)]
+            idx = list(range(n))
+            if n >= 2 and rng.random() < 0.25:
+                idx[rng.randrange(1, n)] = idx[0]  # one start variable drives two tasks
+            cons = [("cumulative", idx, du, de, cap)]
             if rng.random() < 0.3:
                 cons.append(sum_con(rng, n, vars_, 3))
         else:
